@@ -225,6 +225,10 @@ pub fn omni() -> MemAccessCtx {
 /// Builds the world for a scenario. Returns Err on harness-level failures
 /// (source does not assemble), which are never property violations.
 pub fn build(scn: &MScn) -> Result<World, String> {
+    build_with(scn, None)
+}
+/// As `build`, optionally reusing already assembled sources (same order as `scn.srcs`).
+pub fn build_with(scn: &MScn, pre: Option<&[ObjectFile]>) -> Result<World, String> {
     let log = Log::new();
     log.set_enabled(false);
     let mut sim = Simulator::new(scn.flags.to_flags());
@@ -295,8 +299,11 @@ pub fn build(scn: &MScn) -> Result<World, String> {
     }
 
     let mut objs = vec![];
-    for s in &scn.srcs {
-        let o = assemble_src(s)?;
+    for (i, s) in scn.srcs.iter().enumerate() {
+        let o = match pre.and_then(|p| p.get(i)) {
+            Some(o) => o.clone(),
+            None => assemble_src(s)?,
+        };
         sim.load_obj_file(&o).map_err(|e| format!("load: {e:?}"))?;
         objs.push(o);
     }
